@@ -249,7 +249,7 @@ def run_c11(ctx, fa):
     n = 700 if ctx.quick() else 8000
     cases = []
     while len(cases) < n:
-        g = gen.Gen(rnd, logical=rnd.random() < 0.3, max_depth=rnd.choice([1, 2, 3]), big=False, aliases=rnd.random() < 0.3)
+        g = gen.Gen(rnd, logical=rnd.random() < 0.5, max_depth=rnd.choice([1, 2, 3]), big=False, aliases=rnd.random() < 0.3)
         g.dict_prims_with_defaults = True
         ir = g.schema()
         raw = g.render(ir)
